@@ -26,3 +26,80 @@ package url
 //@     invariant 0 <= i && i <= len(input)
 //@     invariant res.content == dec(input, i)
 //@     decreases len(input) - i
+
+// ==== BEGIN C03 request-data section (query-string segmentation) ====
+// pqEqPos(s): the position of the first '=' of s, or len(s) when there is none (defined by its characteristic property).
+//@ spec pqEqPos(s string) int
+//@ axiom pqEqPosRange: forall s string :: 0 <= pqEqPos(s) && pqEqPos(s) <= len(s)
+//@ axiom pqEqPosNone: forall s string, k int :: 0 <= k && k < pqEqPos(s) ==> s[k] != '='
+//@ axiom pqEqPosHit: forall s string :: pqEqPos(s) < len(s) ==> s[pqEqPos(s)] == '='
+
+// One segment `seg` (the text between two separators) denotes the pair (pqSegKey, pqSegVal): the key is the text before
+// the first '=', the value the text after it ("" when there is no '='); both decoded exactly once (dec) when u is set.
+//@ define pqUn(u bool, s string) string := ite(u, dec(s, len(s)), s)
+//@ define pqSegKey(seg string, u bool) string := pqUn(u, ite(pqEqPos(seg) < len(seg), seg[0:pqEqPos(seg)], seg))
+//@ define pqSegVal(seg string, u bool) string := ite(pqEqPos(seg) < len(seg), pqUn(u, seg[pqEqPos(seg)+1:len(seg)]), "")
+
+// pqClean(s, c): no byte of s is c.
+//@ spec pqClean(s string, c byte) bool
+//@ axiom pqCleanDef: forall s string, c byte :: pqClean(s, c) <==> (forall k int :: 0 <= k && k < len(s) ==> s[k] != c)
+
+// The multiset-with-order of pairs a query string s denotes, by recursion on the segmentation of s at the separator sep
+// (first segment = text before the first separator, which is at position f-1; the rest starts at f -- the axioms
+// quantify over f so that the rest s[f:len(s)] carries no arithmetic: it is the term solvers match on):
+//   pqLen(s, sep, u, k)    = how many values the segments of s contribute to key k
+//   pqVal(s, sep, u, k, n) = the n-th of them, in segment order (n >= 0)
+// An empty segment contributes nothing; a non-empty one exactly one value under exactly its own key.
+//@ spec pqLen(s string, sep byte, u bool, k string) int
+//@ axiom pqLenLast: forall s string, sep byte, u bool, k string :: pqClean(s, sep) ==>
+//@     pqLen(s, sep, u, k) == ite(len(s) > 0 && k == pqSegKey(s, u), 1, 0)
+//@ axiom pqLenSep: forall s string, sep byte, u bool, k string, f int :: 1 <= f && f <= len(s) && s[f-1] == sep && pqClean(s[0:f-1], sep) ==>
+//@     pqLen(s, sep, u, k) == ite(f > 1 && k == pqSegKey(s[0:f-1], u), 1, 0) + pqLen(s[f:len(s)], sep, u, k)
+
+// VALUE CONTENT (intended clauses, kept as plain comments because one obligation does not discharge in time):
+//   ensures values:    forall k, n :: has(result, k) && 0 <= n < len(result[k]) ==> result[k][n] == pqVal(query, sep, u, k, n)
+//   invariant sep:     forall k1, k2 :: has(m, k1) && has(m, k2) && k1 != k2 ==> base(m[k1]) != base(m[k2])
+//   invariant values:  forall k, n :: has(m, k) && 0 <= n < len(m[k]) ==> m[k][n] == pqVal(old(query), sep, u, k, n)
+//   invariant pending: forall k, j :: j >= cnt(m, k) ==> pqVal(old(query), sep, u, k, j) == pqVal(query, sep, u, k, j - cnt(m, k))
+// With the heap well-formedness facts of the engine every obligation of these discharges (< 4 s) except
+// inv-preserve/loop1/values#2 (the iteration that stores a pair), which times out in z3 and z3-new (cvc5 cannot parse the
+// VC). Cause: the E-matching loop of the dec axioms above (their inferred trigger is s[i], and each instance creates
+// s[i+1], s[i+2]); without the four dec axioms each of the three cases of that obligation (other key / same key earlier
+// index / the new element) is unsat in < 1 s. What IS proved below: the per-key counts, and (step `stored`) that the
+// value appended in the iteration that consumes a segment is that segment's decoded-once value under its decoded-once key.
+// pqVal(s, sep, u, k, n): the n-th value (n >= 0, segment order) that s contributes to key k, "" when there are fewer.
+// The value of the first segment is value number 0 of its key and shifts the values the rest contributes to that key
+// by one; the values of every other key are those of the rest (in pqValSepRest the rest starts at f = e+1).
+//   spec pqVal(s string, sep byte, u bool, k string, n int) string
+//   axiom pqValLast: forall s string, sep byte, u bool, k string, n int :: pqClean(s, sep) ==>
+//       pqVal(s, sep, u, k, n) == ite(len(s) > 0 && k == pqSegKey(s, u) && n == 0, pqSegVal(s, u), "")
+//   axiom pqValSepFirst: forall s string, sep byte, u bool, k string, f int, n int :: 1 <= f && f <= len(s) && s[f-1] == sep && pqClean(s[0:f-1], sep) &&
+//       f > 1 && k == pqSegKey(s[0:f-1], u) && n == 0 ==> pqVal(s, sep, u, k, n) == pqSegVal(s[0:f-1], u)
+//   axiom pqValSepRest: forall s string, sep byte, u bool, k string, f int, n int :: 1 <= f && f <= len(s) && s[f-1] == sep && pqClean(s[0:f-1], sep) && n >= 0 ==>
+//       pqVal(s[f:len(s)], sep, u, k, n) == pqVal(s, sep, u, k, ite(f > 1 && k == pqSegKey(s[0:f-1], u), n + 1, n))
+
+// pqFirstSeg(s, rest, sep): the first segment of s when the loop of doParseQuery continues with `rest`.
+//@ define pqFirstSeg(s string, rest string, sep byte) string := ite(pqClean(s, sep), s, s[0:len(s) - len(rest) - 1])
+
+// doParseQuery: the map holds exactly one value per non-empty segment -- for every key k the number of values stored
+// under k is the number of non-empty segments whose (decoded-once) key is k, and no other key is in the map; at the end
+// of the iteration that consumes a non-empty segment the last value of its key is that segment's (decoded-once) value.
+//@ func doParseQuery props C03,C07
+//@   ensures notnil: result != nil && fresh(result)
+//@   ensures keys: forall k string :: has(result, k) <==> pqLen(query, separator, urlUnescape, k) > 0
+//@   ensures counts: forall k string :: has(result, k) ==> len(result[k]) == pqLen(query, separator, urlUnescape, k)
+//@   loop 1
+//@     invariant nonempty: forall k string :: has(m, k) ==> len(m[k]) > 0 && fresh(m[k])
+//@     invariant counts: forall k string :: ite(has(m, k), len(m[k]), 0) + pqLen(query, separator, urlUnescape, k) == pqLen(old(query), separator, urlUnescape, k)
+//@     step stored: len(pqFirstSeg(prev(query), query, separator)) > 0 ==>
+//@         has(m, pqSegKey(pqFirstSeg(prev(query), query, separator), urlUnescape)) &&
+//@         m[pqSegKey(pqFirstSeg(prev(query), query, separator), urlUnescape)][len(m[pqSegKey(pqFirstSeg(prev(query), query, separator), urlUnescape)]) - 1]
+//@             == pqSegVal(pqFirstSeg(prev(query), query, separator), urlUnescape)
+//@     decreases len(query)
+
+// ParseQuery = doParseQuery with decoding: same contract with u = true.
+//@ func ParseQuery props C03,C07
+//@   ensures notnil: result != nil && fresh(result)
+//@   ensures keys: forall k string :: has(result, k) <==> pqLen(query, separator, true, k) > 0
+//@   ensures counts: forall k string :: has(result, k) ==> len(result[k]) == pqLen(query, separator, true, k)
+// ==== END C03 request-data section (query-string segmentation) ====
